@@ -13,6 +13,37 @@ COMMON_NOTE = ('Trusted: Coq 8.16.1 kernel (full .vo builds, vm_compute for fini
                'harness and oracles. Axioms: see Print Assumptions output copied into the evidence file.')
 
 CLAIMED = {
+    'C13': dict(
+        text='Theorems C13_markers_exactly_at_back_references (Proofs/GraphProofs.v: the stateful traversal of the code '
+             '- one mutable visited set, start_visit/end_visit around every printer call - refines, for EVERY heap of '
+             'lists, tuples, dicts, user objects and leaves with arbitrary cycles and sharing, the pure unfolding gspec '
+             'in which an object is its recursion marker iff it is among the ancestors of the position; induction on '
+             'the fuel with a list lemma, no size bound), C13_total (fuel = heap size + 1 always suffices: pigeonhole '
+             'on the NoDup ancestor list), C13_sharing (an occurrence that reaches none of its ancestors prints as at '
+             'the root, identically each time), C13_no_residue / C13_visited_restored (the visited set is restored on '
+             'every exit, exceptional ones included). Tie: pformat of real cyclic object graphs vs the model '
+             '(traversal -> tree -> pformat_model) on structured and random heaps; oracle: text == pformat of an '
+             'acyclic reference unfolding, repeated and interleaved prints identical.',
+        design='5.5 C13', technique='Coq refinement proof (stateful traversal vs pure unfolding) + differential correspondence on object graphs',
+        note=COMMON_NOTE + ' id() and type names of the objects, and repr() of failing ones, are observed inputs of the '
+             'model. Sets/frozensets cannot be cyclic and are covered by C01. The marker text itself is compared with '
+             'the implementation character for character.'),
+    'C14': dict(
+        text='Theorems C14_contained (= the refinement theorem with failing printers: for every heap and any set of '
+             'user printers raising before or after printing their arguments the print returns the unfolding in which '
+             'exactly the failing objects are their repr, the warnings are exactly the failing printers in traversal '
+             'order, the visited set is restored), C14_rest_unchanged (that value is the print of the heap with the '
+             'failing objects replaced by opaque repr leaves), C14_nondoc (a top-level non-document gives ValueError), '
+             'C14_later_occurrences_unaffected (visited restored on every exit for every heap and fault, which is what '
+             'the fix: commit made true). Tie: faults injected at each user printer in turn x 3 kinds x 7 exception '
+             'classes, pairs, random heaps; text and warning sequence compared with the model; oracle = independent '
+             'reference traversal + a later fault-free print.',
+        design='5.5 C14', technique='Coq refinement proof (exception containment in the stateful traversal) + fault-injection differential correspondence',
+        note=COMMON_NOTE + ' Exceptions are modelled as one class (everything derived from Exception is caught by the '
+             'same handler: the correspondence run injects 7 classes); BaseException subclasses are outside the '
+             'property. A nested non-document is contained by the nearest enclosing printer (which degrades to repr '
+             'with a warning quoting the ValueError) - the model reproduces this; only the top-level case is claimed '
+             'as "reported with ValueError". The trailing-comment path of _run_pretty is covered by C09.'),
     'C03': dict(
         text='Theorems C03_same_tokens / C03_tokens_any_context (Proofs/PrettyToks3.v, by induction over unbounded values): '
              'width and ribbon are not inputs of the document python_to_sdocs builds, and for every well-formed value '
